@@ -3,7 +3,7 @@
    (Gen.v); RO = Rops, the operations record instantiated with Coq's reals. *)
 From Coq Require Import Reals List Bool String.
 Import ListNotations.
-Require Import MV.C12.Model MV.C12.Gen MV.C12.ProofsLib MV.C12.ProofsBox MV.C12.ProofsVec MV.C12.ProofsFx MV.C12.ProofsEx.
+Require Import MV.C12.Model MV.C12.Gen MV.C12.ProofsLib MV.C12.ProofsBox MV.C12.ProofsVec MV.C12.ProofsFx MV.C12.ProofsEx MV.C12.ProofsR7.
 Open Scope R_scope.
 
 (* ---------------------------------------------------------------- boxes *)
@@ -93,6 +93,20 @@ Theorem C12_defaults_documented :
 Proof. exact defaults_documented. Qed.
 Print Assumptions C12_defaults_documented.
 
+(* operators and properties of AABB / Vec: & | dim mini maxi, x y z xy and their setters *)
+Theorem C12_operators_and_properties : forall (b1 b2 : box R) (v : vec R) (a : R),
+  aabb_and R RO b1 b2 = aabb_intersection R RO b1 b2 /\ aabb_or R RO b1 b2 = aabb_union R RO b1 b2 /\
+  aabb_dim R RO b1 = bdim b1 /\ aabb_mini R RO b1 = blo b1 /\ aabb_maxi R RO b1 = bhi b1 /\
+  vec_x R RO v = nth 0 v 0 /\ vec_y R RO v = nth 1 v 0 /\ vec_z R RO v = nth 2 v 0 /\ vec_xy R RO v = firstn 2 v /\
+  vec_set_x R RO v a = vset v 0 a /\ vec_set_y R RO v a = vset v 1 a /\ vec_set_z R RO v a = vset v 2 a.
+Proof. exact operators_and_properties. Qed.
+Print Assumptions C12_operators_and_properties.
+
+Theorem C12_setter_writes_one_component : forall (v : vec R) (i j : nat) (a : R), (i < List.length v)%nat ->
+  List.length (vset v i a) = List.length v /\ nth j (vset v i a) 0 = if Nat.eqb j i then a else nth j v 0.
+Proof. exact vset_spec. Qed.
+Print Assumptions C12_setter_writes_one_component.
+
 (* ---------------------------------------------------------------- cross / determinants *)
 Theorem C12_cross_expansion : forall a0 a1 a2 b0 b1 b2 : R,
   g_cross R RO [a0; a1; a2] [b0; b1; b2] = [a1 * b2 - a2 * b1; a2 * b0 - a0 * b2; a0 * b1 - a1 * b0].
@@ -176,6 +190,15 @@ Theorem C12_signed_angle_antisymmetric_partial : forall a0 a1 a2 b0 b1 b2 n0 n1 
   g_signed_angle_2vec3D R RO V2 V1 N = conj (g_signed_angle_2vec3D R RO V1 V2 N).
 Proof. exact signed_angle_antisym. Qed.
 Print Assumptions C12_signed_angle_antisymmetric_partial.
+
+(* the FULL statement is false of the faithful model (known finding fn/sangle2/antisymmetric/normal-in-plane): with the
+   reference normal in the plane of the two vectors both orders return the same angle pi/2 *)
+Theorem C12_signed_angle_antisymmetric_refuted :
+  exists V1 V2 N : vec R,
+    g_signed_angle_2vec3D R RO V2 V1 N <> conj (g_signed_angle_2vec3D R RO V1 V2 N) /\
+    g_signed_angle_2vec3D R RO V1 V2 N = (0, 1) /\ g_signed_angle_2vec3D R RO V2 V1 N = (0, 1).
+Proof. exact signed_angle_antisymmetry_refuted. Qed.
+Print Assumptions C12_signed_angle_antisymmetric_refuted.
 
 Theorem C12_signed_angle_guard_is_needed :
   g_signed_angle_2vec3D R RO [0; 1; 0] [1; 0; 0] [1; 0; 0] = g_signed_angle_2vec3D R RO [1; 0; 0] [0; 1; 0] [1; 0; 0]
